@@ -71,14 +71,28 @@ structure TaskRes where
   taskId : Nat
   hasSignature : Bool
 
-/-- x/avs/keeper/impl_epoch_hook.go: AfterEpochEnd, one group: taskID / taskAddr are taken from the
-first *signed* result; with none, GetTaskInfo("0","") fails, the error is only logged and the nil
-*TaskInfo is dereferenced. -/
-def avsGroup (g : List TaskRes) : Outcome :=
-  if g.any (·.hasSignature) then .ok else .halt
+/-- x/avs/keeper/task.go: SetTaskResultInfo, phase one: `if len(info.BlsSignature) == 0 { return ErrParamNotEmptyError }`
+(before the repair the check was `== nil`, which an empty, non-nil slice passed). `sigLen` = len(BlsSignature). -/
+def phaseOneAccepts (sigLen : Nat) : Bool := sigLen != 0
 
-def avsEpochEnd (groups : List (List TaskRes)) : Outcome :=
-  if groups.all (fun g => avsGroup g == .ok) then .ok else .halt
+/-- what is stored and read back for an accepted phase-one result -/
+def storedPhaseOne (taskId sigLen : Nat) : TaskRes := { taskId := taskId, hasSignature := sigLen != 0 }
+
+/-- one (taskID, taskAddr) group of AfterEpochEnd with the outcome of its GetTaskInfo lookup -/
+structure TaskGroup where
+  results : List TaskRes
+  taskInfoFound : Bool
+
+/-- x/avs/keeper/impl_epoch_hook.go: AfterEpochEnd, one group, as repaired: taskID / taskAddr are taken
+from the first *signed* result; `if len(signedOperatorList) == 0 { log; continue }`, then
+`if err != nil || taskInfo == nil { log; continue }` — the nil *TaskInfo is no longer dereferenced. -/
+def avsGroup (g : TaskGroup) : Outcome :=
+  if !(g.results.any (·.hasSignature)) then .logged
+  else if !g.taskInfoFound then .logged
+  else .ok
+
+def avsEpochEnd (groups : List TaskGroup) : Outcome :=
+  if groups.any (fun g => avsGroup g == .halt) then .halt else .ok
 
 /-- x/operator epoch hook (BeginBlock): USD value = amount · price / 10^decimals as LegacyDec;
 MulInt panics "Int overflow" beyond 315 bits. `amountTimesPrice` is the integer product. -/
@@ -94,7 +108,7 @@ def dogfoodEndBlock (usdValueInt : Int) : Outcome :=
 structure St where
   slashedOperatorValue : Option Int   -- Some v: a slash for an operator of total value v arrives in BeginBlock
   endingProposals : Nat
-  avsGroups : List (List TaskRes)     -- groups whose statistical epoch ends in this block
+  avsGroups : List TaskGroup          -- groups whose statistical epoch ends in this block
   maxAmountTimesPrice : Int           -- largest per-asset amount·price of any operator (epoch end)
   maxUsdValueInt : Int                -- largest operator USD value (integer part)
 
@@ -111,10 +125,9 @@ def block (s : St) : Outcome :=
   (seqO (slashStep s.slashedOperatorValue)
   (seqO (dogfoodEndBlock s.maxUsdValueInt) (govEndBlock s.endingProposals))))
 
-/-- the states excluded by the `_partial` theorem, i.e. the negation of the four recorded open defects (F-04b was repaired: a slash of a valueless operator is a logged error) -/
+/-- the states excluded by the `_partial` theorem, i.e. the negation of the three recorded open defects (F-04b and F-11b were repaired: a slash of a valueless operator and an unsigned task-result group are logged and skipped) -/
 structure Inv (s : St) : Prop where
   noTally : s.endingProposals = 0                                          -- ¬F-11a
-  groupsSigned : ∀ g ∈ s.avsGroups, g.any (·.hasSignature) = true         -- ¬F-11b
   powerFits : s.maxUsdValueInt ≤ int64Max                                  -- ¬F-11f
   usdFits : decOverflows (s.maxAmountTimesPrice * decOne) = false          -- ¬F-11g
 
